@@ -957,6 +957,38 @@ def convert_arg(e):
     return None
 
 
+def single_defs(stmts):
+    """names bound exactly once in the statements (nested blocks included), by a plain `n = e` at the top level of
+    the list -> {n: e}.  (Data flow through such a name: what is stored under the name is the value of e.)"""
+    counts = {}
+    for s in stmts:
+        for n in ast.walk(s):
+            if isinstance(n, ast.Name) and isinstance(n.ctx, (ast.Store, ast.Del)):
+                counts[n.id] = counts.get(n.id, 0) + 1
+    out = {}
+    for s in stmts:
+        ap = assign_parts(s)
+        if ap and is_name(ap[0]) and counts.get(ap[0].id) == 1:
+            out[ap[0].id] = ap[1]
+    return out
+
+
+def deref(e, defs):
+    """follow single-assignment names to the expression they were bound to"""
+    seen = 0
+    while isinstance(e, ast.Name) and e.id in defs and seen < 20:
+        e, seen = defs[e.id], seen + 1
+    return e
+
+
+def root_name(e, defs):
+    """the first name of a chain of plain copies n1 = n2 = ... = <expression>"""
+    seen = 0
+    while is_name(e) and e.id in defs and is_name(defs[e.id]) and seen < 20:
+        e, seen = defs[e.id], seen + 1
+    return e.id
+
+
 def reporting(ar_tree, fd_tree):
     """-> (champion parameters are the conversion of the champion decisions,
            best parameters are the conversion of the best decisions,
@@ -964,16 +996,14 @@ def reporting(ar_tree, fd_tree):
            the island's row handed to update_processor stays 1-D whatever its length)"""
     # ---- _get_champions
     fn = find_func(ar_tree, "_get_champions", ARCLS)
-    ds, names, stored = None, {}, {}
+    ds, stored = None, {}
+    defs = single_defs(body_no_doc(fn))
     for s in body_no_doc(fn):
         ap = assign_parts(s)
         if not ap:
             continue
         t, v = ap
-        if is_name(t) and isinstance(v, ast.Call) and u(v.func) in ("self._pygmo_archi.get_champions_x",
-                                                                    "self._pygmo_archi.get_champions_f"):
-            names[t.id] = u(v.func).rsplit(".", 1)[1]
-        elif isinstance(t, ast.Subscript) and is_name(t.value) and isinstance(t.slice, ast.Constant):
+        if isinstance(t, ast.Subscript) and is_name(t.value) and isinstance(t.slice, ast.Constant):
             ds = ds or t.value.id
             if t.value.id != ds:
                 fail(s, "_get_champions fills two datasets")
@@ -984,14 +1014,18 @@ def reporting(ar_tree, fd_tree):
     if not (isinstance(ret, ast.Return) and is_name(ret.value, ds)):
         fail(fn, "_get_champions must return the dataset it filled")
     dec = dataarray_arg(stored.get("champion_decision"))
-    if not (is_name(dec) and names.get(dec.id) == "get_champions_x"):
+    dec_v = deref(dec, defs)
+    if not (isinstance(dec_v, ast.Call) and u(dec_v.func) == "self._pygmo_archi.get_champions_x" and not dec_v.args
+            and not dec_v.keywords):
         fail(fn, "champion_decision is not the archipelago's get_champions_x()")
     par = dataarray_arg(stored.get("champion_parameters"))
     if par is None:
         fail(fn, "champion_parameters is not stored as a DataArray")
+    par = deref(par, defs)
     src = convert_arg(par)
     e = src if src is not None else par
-    if not (is_item(e, ds, "champion_decision") or is_name(e, dec.id)):
+    if not (is_item(e, ds, "champion_decision") or is_name(dec) and is_name(e)
+            and root_name(e, defs) == root_name(dec, defs)):
         fail(fn, "champion_parameters is not computed from champion_decision")
     champion = src is not None
     # ---- get_best_individuals
@@ -999,17 +1033,18 @@ def reporting(ar_tree, fd_tree):
     loops = [s for s in body_no_doc(fn) if isinstance(s, ast.For)]
     if len(loops) != 1:
         fail(fn, "get_best_individuals: expected one loop over the islands")
-    xs, conv, ds, stored = None, {}, None, {}
+    xs, ds, stored = None, None, {}
+    defs = single_defs(loops[0].body)
     for s in loops[0].body:
         ap = assign_parts(s)
         if not ap:
             continue
         t, v = ap
         if is_name(t) and isinstance(v, ast.Call) and isinstance(v.func, ast.Attribute) and v.func.attr == "get_x" \
-                and not v.args:
+                and not v.args and t.id in defs:
+            if xs is not None:
+                fail(s, "get_best_individuals reads two populations")
             xs = t.id
-        elif is_name(t) and convert_arg(v) is not None:
-            conv[t.id] = convert_arg(v)
         elif isinstance(t, ast.Subscript) and is_name(t.value) and isinstance(t.slice, ast.Constant) \
                 and str(t.slice.value).startswith("best_"):
             ds = ds or t.value.id
@@ -1022,9 +1057,8 @@ def reporting(ar_tree, fd_tree):
     par = dataarray_arg(stored.get("best_parameters"))
     if par is None:
         fail(fn, "best_parameters is not stored as a DataArray")
-    if is_name(par) and par.id in conv and is_name(conv[par.id], xs):
-        best = True
-    elif convert_arg(par) is not None and is_name(convert_arg(par), xs):
+    par = deref(par, {k: v for k, v in defs.items() if k != xs})
+    if convert_arg(par) is not None and is_name(convert_arg(par), xs):
         best = True
     elif is_name(par, xs):
         best = False
@@ -1400,15 +1434,33 @@ def emit(rows, getter, sb, cv, up, init_copy, fit_conv, rep) -> str:
             f"Definition src_report : rp_desc := mkRp {cb(rep[0])} {cb(rep[1])} {cb(rep[2])} {cb(rep[3])}.\n")
 
 
+# functions the translator anchors on (read as they are, never inlined into their callers)
+ANCHORS = ("_set_bound", "convert_to_parameters", "update_processor", "_apply_parameters",
+           "apply_parameters_to_processors", "get_bounds", "fitness", "_get_champions", "get_best_individuals",
+           "run_evolve", "convert_values", "build_processors", "run_pipeline")
+
+
+def parse_norm(repo: Path, rel: str) -> ast.Module:
+    """the module after the behaviour-preserving normalisations of translator/c10_norm.py"""
+    from .c10_norm import normalise
+
+    tree = parse(repo, rel)
+    try:
+        return normalise(tree, repo, ANCHORS)
+    except RecursionError as ex:
+        from harness.core import TranslationError
+        raise TranslationError(f"{rel}: normalisation failed: {ex}") from ex
+
+
 def translate(repo: Path) -> str:
-    fd = parse(repo, FD)
-    pv = parse(repo, PV)
+    fd = parse_norm(repo, FD)
+    pv = parse_norm(repo, PV)
     rows, getter = parameter_values(pv)
     sb = set_bound(fd)
     cv = convert(fd)
     up = update(fd)
     init_copy, fit_conv = init_and_fitness(fd)
-    rep = reporting(parse(repo, AR), fd)
+    rep = reporting(parse_norm(repo, AR), fd)
     return emit(rows, getter, sb, cv, up, init_copy, fit_conv, rep) + \
         emit_kinds(convert_values_norm(pv), sb["tests"], init_count(fd), cv[2]["tests"], up[2]["tests"])
 
